@@ -315,6 +315,10 @@ class Exec(Engine):
             return [(st, V(ta, z3.Concat(a.z, b.z)))]
         if ta == STR and isinstance(op, ast.Mod):
             return [(st, V(STR, fresh_z(STR, 'fmt')))]          # %-formatting: opaque text
+        if ta == BYTES and tb == INT and isinstance(op, ast.Mult):
+            # repetition stays symbolic (long unit concatenations make the sequence solver crawl)
+            f = z3.Function('py_bytes_repeat', sort_of(BYTES), z3.IntSort(), sort_of(BYTES))
+            return [(st, V(BYTES, f(a.z, b.z)))]
         if ta == STR and tb == INT and isinstance(op, ast.Mult):
             f = z3.Function('py_str_repeat', z3.StringSort(), z3.IntSort(), z3.StringSort())
             return [(st, V(STR, f(a.z, b.z)))]
